@@ -250,6 +250,14 @@ func (fr *frame) callStatic(fn *ssa.Function, args []Val, argTypes []types.Type,
 		vc.havocAllState(st)
 	} else {
 		vc.havocked[name] = true
+		if why := stateBranching(fn); why != "" {
+			// The ledger and the stores are ghost state of ONE state branch: the one behind the context the
+			// entry point was given. A derived context with its own store branch or event manager, or a fresh
+			// context, is outside that model - a write made through it is neither visible to nor ordered with
+			// the writes the specs record - so a reachable call is an obligation that cannot be discharged.
+			vc.oblige("unsupported", fmt.Sprintf("%s#unsupported:state-branch(%s)", shortFn(fr.fn), name), pos,
+				"call to "+name+" ("+why+"): the ghost ledger/stores model a single state branch", alive, "false", nil)
+		}
 		if why := panickyExternal(fn); why != "" {
 			// no contract says when this callee panics, and its package panics by design on bad operands
 			// (not through safetyCheck: that would assume the condition - false - on the normal path)
@@ -814,4 +822,35 @@ func isContextType(t types.Type) bool {
 	}
 	q := qualifiedName(n)
 	return q == "context.Context" || q == "github.com/cosmos/cosmos-sdk/types.Context"
+}
+
+// stateBranching says why a call leaves the single-branch model of the ledger and the stores ("" if it does not).
+func stateBranching(fn *ssa.Function) string {
+	name := fn.Name()
+	if recv := fn.Signature.Recv(); recv != nil {
+		rt := recv.Type()
+		if p, ok := rt.(*types.Pointer); ok {
+			rt = p.Elem()
+		}
+		if nt, ok := types.Unalias(rt).(*types.Named); ok && nt.Obj().Pkg() != nil && nt.Obj().Pkg().Path() == "github.com/cosmos/cosmos-sdk/types" && nt.Obj().Name() == "Context" {
+			switch name {
+			case "CacheContext":
+				return "branches the state: writes are invisible to the parent until written back, and the write-back overwrites"
+			case "WithMultiStore", "WithEventManager", "WithContext":
+				return "derives a context over a different store or event manager"
+			}
+		}
+		switch name {
+		case "CacheMultiStore", "CacheMultiStoreWithVersion", "CacheWrap", "CacheWrapWithTrace":
+			return "branches the store"
+		}
+		return ""
+	}
+	if fn.Pkg != nil {
+		switch fn.Pkg.Pkg.Path() + "." + name {
+		case "context.Background", "context.TODO", "github.com/cosmos/cosmos-sdk/types.NewContext":
+			return "creates a context that is not the caller's"
+		}
+	}
+	return ""
 }
